@@ -216,7 +216,7 @@ func (p *sparser) parseBin(minPrec int) *SNode {
 func (p *sparser) parseUnary() *SNode {
 	t := p.peek()
 	switch t.tok {
-	case token.SUB, token.NOT, token.XOR, token.MUL, token.ADD:
+	case token.SUB, token.NOT, token.XOR, token.MUL, token.ADD, token.AND:
 		p.next()
 		x := p.parseUnary()
 		return &SNode{Op: "un", Tok: t.tok.String(), Args: []*SNode{x}}
